@@ -80,6 +80,17 @@ FIXED = [
      'identifier characters (witness "\\u2163 ;")'),
     ('FX-keyword-property-c01', 'C01', '9979704',
      'pretty output "({\\n  p: a.return\\n})" rejected on re-parse'),
+    ('FX-space-after-combining-mark', 'C02', 'dca0094',
+     'an identifier ending in a combining mark or connector punctuation '
+     'fused with a following word operator ("a\\u0301 in b" minified to '
+     '"a\\u0301in b")'),
+    ('FX-white-space-before-regex', 'C05', 'af659ae',
+     'a regular expression literal preceded by white space other than blank '
+     'or tab (NBSP, VT, FF, BOM, Zs) was read as a division ("x = \\xa0/ab/" '
+     'rejected)'),
+    ('FX-white-space-before-regex-c03', 'C03', 'af659ae',
+     '"x = \\xa0/ab/" rejected (white space other than blank or tab in '
+     'front of a regular expression literal)'),
 ]
 
 FINDINGS = []
